@@ -25,7 +25,7 @@ Inductive expr :=
 
 Inductive stmt :=
   | SAssign (ts : list name) (e : expr)               (* x = e ; (x, y) = e ; _ = e *)
-  | SEffect (e : expr)                                (* assert e ; bare expression *)
+  | SEffect (e : expr)                                (* assert e ; bare expression ; xs[i] = e (reads xs, i, e; binds nothing) *)
   | SIf1 (c : expr) (body : list stmt)
   | SIf (c : expr) (ift iff : list stmt)
   | SWhile (c : expr) (body : list stmt)
